@@ -34,6 +34,7 @@ type HarnessOpt struct {
 	UnwindIsViolation bool
 	Merge []string
 	IfConv bool
+	MaxSplit int
 }
 
 type Property struct {
@@ -170,6 +171,7 @@ func (r *Runner) optFor(name string) HarnessOpt {
 			o.UnwindIsViolation = c.UnwindIsViolation
 			o.Merge = c.Merge
 			o.IfConv = c.IfConv
+			o.MaxSplit = c.MaxSplit
 		}
 	}
 	return o
@@ -237,7 +239,7 @@ func (r *Runner) runHarness(rel string, fn *ssa.Function, workers int) *HarnessR
 			return nil, err
 		}
 		x := &ssaexec.Exec{Prog: r.L.Prog, C: c, S: s}
-		x.Opt = ssaexec.Options{MaxUnwind: o.MaxUnwind, MaxSteps: o.MaxSteps, InitPkgs: initPkgs, MapOrders: o.MapOrders, Workers: o.Workers, Tier: tier}
+		x.Opt = ssaexec.Options{MaxUnwind: o.MaxUnwind, MaxSteps: o.MaxSteps, MaxSplit: o.MaxSplit, InitPkgs: initPkgs, MapOrders: o.MapOrders, Workers: o.Workers, Tier: tier}
 		x.Opt.IfConv = o.IfConv
 		if len(o.Merge) > 0 {
 			x.Opt.Merge = map[string]bool{}
@@ -300,7 +302,7 @@ func (r *Runner) Run() int {
 	for i, j := range jobs {
 		results[i] = r.runHarness(j.rel, j.fn, cores)
 		hr := results[i]
-		fmt.Fprintf(os.Stderr, "  %-44s paths=%-6d ends=%v findings=%d q=%d solver=%.1fs wall=%.1fs\n", hr.Name, hr.Report.Paths, hr.Report.Ends, len(hr.Report.Findings), hr.Stats.Solver.Queries, hr.Stats.Solver.Seconds, hr.Wall)
+		fmt.Fprintf(os.Stderr, "  %-44s paths=%-6d ends=%v findings=%d q=%d solver=%.1fs wall=%.1fs ifconv=%d\n", hr.Name, hr.Report.Paths, hr.Report.Ends, len(hr.Report.Findings), hr.Stats.Solver.Queries, hr.Stats.Solver.Seconds, hr.Wall, hr.Stats.IfConv)
 		if hr.Err != nil {
 			fmt.Fprintf(os.Stderr, "    error: %v\n", hr.Err)
 		}
